@@ -22,12 +22,20 @@ func runC43(c *mon.Ctx) {
 		"observed ping frame; pongs are sent synchronously from the transport when the ping frame is seen. Arm 'alive' (ping timeout 45 s real, every ping " +
 		"answered): Run must still be running when the next tick's ping is observed. Arm 'dead' (timeout 300 ms): after an unanswered / decoy-only ping Run must " +
 		"end on its own with an error; a further ping frame after one more tick means it kept running. Verdicts are outcomes, never measured durations. " +
-		"distinct non-trivial = (fate, decoy set) classes and keep-alive answer sequences")
+		"(C) race: on one connection, rounds of Ping A whose context is cancelled before / concurrently with / just after its matching pong is handled (both outcomes of A " +
+		"are legitimate), each followed by Ping B that is never answered: B must not return nil; keep-alive variant: 1..3 such races, then an unanswered keep-alive ping must " +
+		"end Run with an error and no further ping. distinct non-trivial = (fate, decoy set) classes, keep-alive answer sequences, race order sequences")
 	c.Assume("refmodel cipher and generated mt TL encoders trusted; a goroutine whose channel was closed is not reported as parked in [select] by runtime.Stack")
 	c.Assume("arm 'alive': a synchronously queued pong is handled within 45 s of real time; arm 'dead' runs whose earlier, answered pings time out under load are discarded, not judged")
 	nA := c.N(220, 8000)
 	for i := 0; i < nA; i++ {
 		if !c43API(c, i) {
+			break
+		}
+	}
+	nR := c.N(150, 5000)
+	for i := 0; i < nR && c.Violations() < 5; i++ {
+		if !c43Race(c, i) {
 			break
 		}
 	}
